@@ -189,11 +189,60 @@ def gen_factory(tier):
                                 op_ctx(1), op_run(GLOBALS, slot=1), op_run(v2, slot=1), op_run(block(probe), slot=1), op_out(1), "leakcheck"]
                         yield Case("v%d" % n, ops, {"kind": "redef", "v1": v1n, "v2": v2n, "hist": hist, "probe": probe, "nh": len(hist)})
                         n += 1
+        # the new definition arrives in a text that calls the function before the FUNCTION statement, or in a text that is rejected
+        for v1n, v1 in versions.items():
+            for v2n, v2 in versions.items():
+                for hist in (["fv(1)"], ["fv(3)", "fv(1)", "fv(2)"]):
+                    for probe in ("fv(1)", "fv(3)"):
+                        for shape in ("call-first", "rejected", "rejected-call-first"):
+                            if shape == "call-first":
+                                text2 = block(probe) + "\n" + v2 + "\n" + block(probe)
+                            elif shape == "rejected":
+                                text2 = v2 + "\nzq = 1 +;"
+                            else:
+                                text2 = block(probe) + "\n" + v2 + "\nzq = 1 +;"
+                            ops = [op_ctx(0), op_run(GLOBALS), op_run(v1)]
+                            for c in hist:
+                                ops.append(op_run(block(c)))
+                            ops += [op_out(0), op_run(text2), op_out(0), op_run(block(probe)), op_out(0),
+                                    op_ctx(1), op_run(GLOBALS, slot=1), op_run(v2, slot=1), op_run(block(probe), slot=1), op_out(1),
+                                    op_ctx(2), op_run(GLOBALS, slot=2), op_run(v1, slot=2), op_run(block(probe), slot=2), op_out(2), "leakcheck"]
+                            yield Case("w%d" % n, ops, {"kind": "redef2", "v1": v1n, "v2": v2n, "hist": hist, "probe": probe, "nh": len(hist), "shape": shape})
+                            n += 1
         # caller isolation at compile time
         for k, (d, rejected) in enumerate(ISOLATION):
             ops = [op_ctx(0), op_run(GLOBALS), op_run(d), op_run("r = g%d(%s); print r;" % (k + 1, "1" if "(a)" in d else "")), op_out(0), op_dump(0, GLOBALS_DUMP)]
             yield Case("i%d" % n, ops, {"kind": "iso", "def": d, "rejected": rejected})
             n += 1
+        # an argument is received by copy at the moment it is evaluated: a later argument of the same call that changes the variable in
+        # place does not reach into the parameter already bound (and an earlier one does)
+        shows = {"s": ("string", 'print "a=" a " b=" b;'), "t": ("table", 'print "a=" a.count() a.at(0) " b=" b.count() b.at(0);'),
+                 "r": ("tuple", 'print "a=" a@1 " b=" b@1;'), "x": ("bytes", 'print "a=" a.count() a.at(0) " b=" b.count() b.at(0);')}
+        alias = [
+            # variable, its initial value, the mutating expression, (value shown before, value shown after)
+            ("s", 's = "abc";', 's.concat("!")', "abc", "abc!"),
+            ("t", "t = tab(2, 5);", "t.put(0, 9)", "25", "29"),
+            ("t", "t = tab(2, 5);", "t.concat(7)", "25", "35"),
+            ("t", "t = tab(2, 5);", "t.delete(0)", "25", "15"),
+            ("t", "t = tab(2, 5);", "t.insert(0, 1)", "25", "31"),
+            ("r", 'r = tup(1, "q");', "r.set@1(4)", "1", "4"),
+            ("x", 'x = raw("ab");', "x.concat(99)", "297", "397"),
+            ("x", 'x = raw("ab");', "x.put(0, 66)", "297", "266"),
+        ]
+        for var, init, mut, before, after in alias:
+            for order in ("var-first", "mutation-first", "three", "nested"):
+                fdef = "function pair(a, b) return integer is begin %s return 1; end; function tri(a, b, c) return integer is begin %s print c; return 1; end; function idv(v) return undefined is begin return v; end;" % (shows[var][1], shows[var][1])
+                if order == "var-first":
+                    call, want = "zz = pair(%s, %s);" % (var, mut), "a=%s b=%s\n" % (before, after)
+                elif order == "mutation-first":
+                    call, want = "zz = pair(%s, %s);" % (mut, var), "a=%s b=%s\n" % (after, after)
+                elif order == "three":
+                    call, want = "zz = tri(%s, %s, 0);" % (var, mut), "a=%s b=%s\n0\n" % (before, after)
+                else:
+                    call, want = "zz = pair(%s, idv(%s));" % (var, mut), "a=%s b=%s\n" % (before, after)
+                ops = [op_ctx(0), op_run(GLOBALS), op_run(fdef), op_run(init + " " + call), op_out(0)]
+                yield Case("a%d" % n, ops, {"kind": "alias", "call": call, "init": init, "want": want})
+                n += 1
         # recursion depth, reached directly and below k+1 levels of another function, after earlier calls at other levels
         rec = ("function rec(n) return integer is begin if n <= 1 then return 1; end if; return 1 + rec(n - 1); end; "
                "function down(k, n) return integer is begin if k <= 0 then return rec(n); end if; return down(k - 1, n); end;")
@@ -267,6 +316,34 @@ def check(case, res):
         elif probe_run.get("r") != fresh_run.get("r") or probe_out != fresh_out:
             vs.append(Violation("redefinition:%s->%s" % (m["v1"], m["v2"]), "%s with definition %s, after definition %s had been called %s, gives %s %r; in a context that only saw %s: %s %r" % (
                 m["probe"], m["v2"], m["v1"], m["hist"], probe_run.get("r"), probe_out, m["v2"], fresh_run.get("r"), fresh_out), case))
+        return vs, True
+    if m["kind"] == "redef2":
+        k = 3 + m["nh"] + 1
+        t2, t2_out, after, after_out = st[k], text(st[k + 1]), st[k + 2], text(st[k + 3])
+        new_run, new_out = st[k + 7], text(st[k + 8])
+        old_run, old_out = st[k + 12], text(st[k + 13])
+        where = "%s: definition %s (called %s) then a text with definition %s" % (m["shape"], m["v1"], m["hist"], m["v2"])
+        if m["shape"] == "call-first":
+            # the call ahead of the FUNCTION statement runs one of the two definitions, the call after it the new one
+            ok_outs = {old_out + new_out, new_out + new_out}
+            if new_run.get("r") == "ok" and (t2.get("r") != "ok" or t2_out not in ok_outs):
+                vs.append(Violation("redefinition:call-first:%s->%s" % (m["v1"], m["v2"]), "%s gives %s %r, expected one of %r" % (where, t2.get("r"), t2_out, sorted(ok_outs)), case))
+            want_run, want_out = new_run, new_out
+        else:
+            if t2.get("r") != "perr":
+                vs.append(Violation("harness:redef2", "%s: the text was not rejected: %s" % (where, t2), case))
+            want_run, want_out = old_run, old_out
+        if after.get("r") != want_run.get("r") or after_out != want_out:
+            vs.append(Violation("redefinition:%s:afterwards" % m["shape"], "%s: afterwards %s gives %s %r, expected %s %r" % (
+                where, m["probe"], after.get("r"), after_out, want_run.get("r"), want_out), case))
+        return vs, True
+    if m["kind"] == "alias":
+        run, out = st[3], text(st[4])
+        if st[2].get("r") != "ok":
+            vs.append(Violation("harness:alias", "%s" % st[2], case))
+        elif run.get("r") != "ok" or out != m["want"]:
+            vs.append(Violation("argument-binding:%s" % m["call"].split("(")[0].split("= ")[1], "%s %s gives %s %r, expected %r (arguments are copied in order, as each one is evaluated)" % (
+                m["init"], m["call"], run.get("r"), out, m["want"]), case))
         return vs, True
     if m["kind"] == "iso":
         d, run, out, dump = st[2], st[3], text(st[4]), st[5]
